@@ -49,6 +49,7 @@ def ops_for(types, extra=(), nvalues=None):
             ops.append([list(c), 0.35])
     if len(types) >= 2:
         ops.append([list(reversed(types)), 0.8])        # list key in reverse type order
+        ops.append([['ITER'] + list(types[:2]), 0.1])   # the same kind of key handed over as a one-shot iterator
     return ops
 
 
@@ -71,7 +72,13 @@ def build(kind, types):
 def step(obj, model, types, op):
     model = dict(model)
     key, v = op
-    obj[key] = v
+    if isinstance(key, list) and key and key[0] == 'ITER':
+        key = key[1:]
+        obj[iter(list(key))] = v
+    elif isinstance(key, str) and len(key) > 1:
+        obj[''.join(list(key))] = v          # an equal but distinct string object (a label built at run time)
+    else:
+        obj[key] = v
     for t in (key if isinstance(key, list) else [key]):
         model[t] = v
     return model
@@ -149,7 +156,7 @@ def canon(model, types):
 def report(rec, kind, types, hist, probs):
     for k, msg in probs[:2]:
         case = {'kind': kind, 'types': types, 'ops': hist}
-        s = "import pyPRISM\nx = pyPRISM.%s(%r)\n" % (kind, types) + ''.join('x[%r] = %r\n' % (o[0], o[1]) for o in hist)
+        s = "import pyPRISM\nx = pyPRISM.%s(%r)\n" % (kind, types) + ''.join('x[%s] = %r\n' % (('iter(%r)' % (o[0][1:],)) if (isinstance(o[0], list) and o[0] and o[0][0] == 'ITER') else repr(o[0]), o[1]) for o in hist)
         rec.fail(case, '%s%s after %s: %s' % (kind, types, hist, msg), tags={'kind': k, 'class': kind}, repro=s)
 
 
